@@ -18,4 +18,20 @@ def _install():
     atexit.register(report)
 
 
+def _fast_weakref():
+    """CrossHair forces a full gc.collect() on every weakref dereference to make weak references deterministic
+    (22% of the run time of an endpoint harness, asyncio dereferences them constantly).  The harnesses hold strong
+    references to every object they observe, so the collection changes nothing they can see: drop it."""
+    from weakref import ref
+    from crosshair import core
+
+    def _ref_call(r):
+        if not isinstance(r, ref):
+            raise TypeError
+        return r()
+    if ref.__call__ in core._PATCH_REGISTRATIONS:
+        core._PATCH_REGISTRATIONS[ref.__call__] = _ref_call
+
+
 _install()
+_fast_weakref()
